@@ -13,7 +13,7 @@ META = {
             'every binding and reference, and the output is alpha-equivalent to the input (nothing but renaming differs). '
             'non-trivial = the list contains a name that is renamed without the list; distinct by (program, list, option)',
     'assumptions': [],
-    'modelled_not_verified': ['allow_rename_locals/globals and find__all__ are not modelled in Lean; their effect (pinned bindings keep names) is the C03 theorem'],
+    'modelled_not_verified': ['allow_rename_locals/globals are modelled as applyPreserve on binding records (the traversal that marks bindings is not); find__all__ is modelled (PMV.Exports.findAll) and run against the real function'],
 }
 
 
@@ -56,9 +56,7 @@ def one(ctx, ident, src, which, names, as_string, found_by):
                            'observed': out[:400], 'found_by': found_by, 'oracle': 'preserve', 'shapes': rc.shapes_of(src)})
 
 
-def all_and_lambda(ctx):
-    import python_minifier
-    cases = [
+ALL_CASES = [
         ('__all__ = ["public_function", "PublicClass"]\ndef public_function(argument_name):\n    return argument_name\nclass PublicClass:\n    pass\ndef private_function():\n    return public_function(1)\n', ['public_function', 'PublicClass']),
         ('__all__ = []\n__all__ += ["exported_name"]\nexported_name = 1\nhidden_name = exported_name + 1\nprint(hidden_name, hidden_name)\n', ['exported_name']),
         ('__all__: list = ["exported_name"]\nexported_name = 1\nhidden_name = exported_name\nprint(hidden_name, hidden_name)\n', ['exported_name']),
@@ -73,7 +71,11 @@ def all_and_lambda(ctx):
         ('__all__ = ["first_name"]\n__all__ = ["second_name"]\nfirst_name = second_name = 1\nprint(first_name, first_name, second_name, second_name)\n', ['first_name', 'second_name']),
         ('__all__ = ["first_name"]\n__all__: list = ["second_name"]\n__all__ += ["third_name"]\nfirst_name = second_name = third_name = 1\nprint(first_name, first_name, second_name, second_name, third_name, third_name)\n', ['first_name', 'second_name', 'third_name']),
     ]
-    for src, must in cases:
+
+
+def all_and_lambda(ctx):
+    import python_minifier
+    for src, must in ALL_CASES:
         opts = dict(c02.ALL_OFF)
         opts.update(rename_globals=True, rename_locals=True)
         out = python_minifier.minify(src, **opts)
@@ -89,6 +91,161 @@ def all_and_lambda(ctx):
     if 'def handler_function(' not in out or 'helper_function' in out:
         ctx.add_violation({'input': {'source': src, 'which': 'awslambda', 'names': ['handler_function'], 'as_string': False},
                            'what': 'awslambda entrypoint not preserved or nothing else renamed: %r' % out, 'found_by': 'awslambda', 'oracle': 'preserve', 'shapes': []})
+
+
+# ---- find__all__ against its Lean model (PMV.Exports.findAll, specified by C10.findAll_exact) ----
+
+EXPORT_POOL = ['exported_function', 'EXPORTED_VALUE', 'first_name', 'second_name', 'third_name', 'legacy_name', 'ExportedClass']
+
+
+def _all_stmt(rng, used):
+    def lst():
+        els = []
+        for _ in range(rng.randint(0, 3)):
+            n = rng.choice(EXPORT_POOL)
+            r = rng.random()
+            if r < 0.7:
+                used.add(n)
+                els.append(repr(n))
+            elif r < 0.8:
+                els.append('b' + repr(n))
+            elif r < 0.87:
+                els.append(n)
+            elif r < 0.93:
+                els.append('[%r]' % n)
+            else:
+                els.append('f"{1}%s"' % n)
+        return '[' + ', '.join(els) + ']'
+    r = rng.random()
+    if r < 0.3:
+        return '__all__ = ' + lst()
+    if r < 0.42:
+        return '__all__ += ' + lst()
+    if r < 0.54:
+        return '__all__: list = ' + lst()
+    if r < 0.6:
+        return 'other_list = __all__ = ' + lst()
+    if r < 0.66:
+        return '__all__ = other_list = ' + lst()
+    if r < 0.7:
+        return '__all__: list'
+    if r < 0.75:
+        return '__all__ = tuple(' + lst() + ')' if rng.random() < 0.5 else '__all__ = (%r, %r)' % (rng.choice(EXPORT_POOL), rng.choice(EXPORT_POOL))
+    if r < 0.8:
+        return '__all__ = ' + lst() + ' + ' + lst()
+    if r < 0.84:
+        return 'other_module.__all__ = ' + lst()
+    if r < 0.88:
+        return '__all__, other_list = ' + lst() + ', 1'
+    if r < 0.92:
+        return 'not__all__ = ' + lst()
+    if r < 0.96:
+        return '__all__.extend(' + lst() + ')'
+    return 'print((lambda: ' + lst() + ')())'
+
+
+def _all_block(rng, depth, used, indent):
+    pad = '    ' * indent
+    out = []
+    for _ in range(rng.randint(1, 3)):
+        r = rng.random()
+        if depth <= 0 or r < 0.45:
+            out.append(pad + _all_stmt(rng, used))
+            continue
+        kind = rng.choice(['if', 'ifelse', 'for', 'forelse', 'while', 'whileelse', 'try', 'tryfinally', 'trystar', 'with', 'def', 'class', 'asyncdef', 'match', 'asyncfor', 'asyncwith'])
+        sub = lambda: _all_block(rng, depth - 1, used, indent + 1)
+        nouse = lambda: _all_block(rng, depth - 1, set(), indent + 1)
+        if kind == 'if':
+            out += [pad + 'if condition_value:', sub()]
+        elif kind == 'ifelse':
+            out += [pad + 'if condition_value:', sub(), pad + 'elif other_condition:', sub(), pad + 'else:', sub()]
+        elif kind == 'for':
+            out += [pad + 'for loop_item in some_items:', sub()]
+        elif kind == 'forelse':
+            out += [pad + 'for loop_item in some_items:', sub(), pad + 'else:', sub()]
+        elif kind == 'while':
+            out += [pad + 'while condition_value:', sub()]
+        elif kind == 'whileelse':
+            out += [pad + 'while condition_value:', sub(), pad + 'else:', sub()]
+        elif kind == 'try':
+            out += [pad + 'try:', sub(), pad + 'except NameError:', sub(), pad + 'except (KeyError, ValueError) as caught_error:', sub(), pad + 'else:', sub()]
+        elif kind == 'tryfinally':
+            out += [pad + 'try:', sub(), pad + 'finally:', sub()]
+        elif kind == 'trystar':
+            out += [pad + 'try:', sub(), pad + 'except* ValueError:', sub()]
+        elif kind == 'with':
+            out += [pad + 'with some_context() as context_value:', sub()]
+        elif kind == 'match':
+            out += [pad + 'match subject_value:', pad + '    case 1:', _all_block(rng, depth - 1, used, indent + 2), pad + '    case [first_item, *_] if first_item:',
+                    _all_block(rng, depth - 1, used, indent + 2)]
+        elif kind == 'def':
+            out += [pad + 'def some_function():', nouse()]
+        elif kind == 'asyncdef':
+            out += [pad + 'async def some_coroutine():', nouse()]
+        elif kind == 'class':
+            out += [pad + 'class SomeClass:', nouse()]
+        elif kind == 'asyncfor':
+            out += [pad + 'async def outer_coroutine():', pad + '    async for loop_item in some_items:', _all_block(rng, depth - 1, set(), indent + 2)]
+        elif kind == 'asyncwith':
+            out += [pad + 'async def outer_coroutine():', pad + '    async with some_context():', _all_block(rng, depth - 1, set(), indent + 2)]
+    return '\n'.join(out)
+
+
+def all_program(rng):
+    used = set()
+    body = _all_block(rng, rng.randint(0, 3), used, 0)
+    tail = ''.join('%s = 1\nprint(%s, %s)\n' % (n, n, n) for n in EXPORT_POOL)
+    return body + '\n' + tail
+
+
+def _dec_names(ans):
+    body = ans[3:].strip()
+    if not body:
+        return []
+    return ['' if tok == '-' else ''.join(chr(int(c)) for c in tok.split('.')) for tok in body.split(' ')]
+
+
+def findall_correspondence(ctx, progs, found_by):
+    """the real find__all__ and the model's findAll on the same modules; a disagreement is looked up on the real minifier at once"""
+    import pyast
+    import sexp  # noqa: F401
+    import python_minifier
+    from python_minifier.rename.util import find__all__
+    reqs, meta = [], []
+    for ident, src in progs:
+        try:
+            tree = ast.parse(src)
+            with pyast.unlimited():
+                reqs.append('exports.findall ' + pyast.enc_module(tree))
+            meta.append((ident, src, tree))
+        except (SyntaxError, pyast.OutOfModel):
+            ctx.bump('findall', 'outside')
+    answers = ctx.driver.ask(reqs) if reqs else []
+    nonempty = agree = 0
+    for (ident, src, tree), ans in zip(meta, answers):
+        if not ans.startswith('ok'):
+            ctx.add_broken('correspondence', 'exports.findall:' + ident, 'driver answered %r' % ans[:100])
+            continue
+        model = _dec_names(ans)
+        real = list(find__all__(tree))
+        nonempty += bool(model)
+        ctx.bump('findall_names', min(len(model), 4))
+        if sorted(model) == sorted(real):
+            agree += 1
+            continue
+        ctx.add_broken('correspondence', 'exports.findall:' + ident, 'find__all__ gives %r, the model (C10.findAll_exact) gives %r on %r' % (sorted(real), sorted(model), src[:400]))
+        # the model's answer is what the property asks for (theorem findAll_exact): is a name it lists renamed by the real minifier?
+        opts = dict(c02.ALL_OFF)
+        opts.update(rename_globals=True, rename_locals=True)
+        try:
+            out = python_minifier.minify(src, **opts)
+        except Exception:
+            continue
+        probs = alpha.preserved_problems(src, out, set(model), 'globals')
+        if probs:
+            ctx.add_violation({'input': {'source': src, 'which': 'all', 'names': sorted(model), 'as_string': False}, 'what': '; '.join(probs[:3]),
+                               'observed': out[:300], 'found_by': 'findall-correspondence', 'oracle': 'preserve', 'shapes': []})
+    ctx.stage('findall-correspondence:' + found_by, modules=len(meta), agree=agree, with_names=nonempty)
 
 
 CLI_OTHERS_OFF = ['--no-combine-imports', '--no-remove-pass', '--no-hoist-literals', '--no-remove-object-base', '--no-convert-posargs-to-args',
@@ -191,6 +348,9 @@ def run(ctx):
     ctx.rng.shuffle(sample)
     cli_preserve(ctx, sample[:ctx.scale(60, 800)], 'command-line')
     all_and_lambda(ctx)
+    findall_correspondence(ctx, [('case%d' % i, c[0]) for i, c in enumerate(ALL_CASES)], 'directed')
+    findall_correspondence(ctx, [('gen%d' % i, all_program(ctx.rng)) for i in range(ctx.scale(300, 6000))], 'generated')
+    findall_correspondence(ctx, [(i, s) for i, s in sample[:ctx.scale(80, 800)]], 'scope-programs')
 
 
 def search(ctx):
